@@ -204,6 +204,7 @@ func runC10(t *testing.T, sched simrt.Schedule, prog c10Prog) ([]Violation, RunS
 			}
 			return false
 		}
+		detachedSet := map[string]bool{} // "topic/user": see below, where it is filled
 		leakCheck := func(pre *simdb.Disk, where string) {
 			hist = append(hist, diskAt{preAt, pre, preSn})
 			post := w.Disk
@@ -251,7 +252,9 @@ func runC10(t *testing.T, sched simrt.Schedule, prog c10Prog) ([]Violation, RunS
 					}
 					switch p.What {
 					case "on", "off", "ua", "upd", "msg", "read", "recv", "del":
-						if !p1 && !p2 && !chn1 && !chn2 {
+						if !p1 && !p2 && !chn1 && !chn2 && detachedSet[g+"/"+c.User.Uid.UserId()] {
+							out = append(out, vio("C10", "presence-without-P after-detached-set", "%s: client %d (user %d) dropped P on %s through a session that was not attached to it and got %s", where, c.Idx, c.User.Idx, g, frameSummary(f.Msg)))
+						} else if !p1 && !p2 && !chn1 && !chn2 {
 							out = append(out, vio("C10", "presence-without-P "+p.What, "%s: client %d (user %d), whose effective mode on %s lacks P (or who was removed), got %s at t=%v (states considered: %d, history %v)", where, c.Idx, c.User.Idx, g, frameSummary(f.Msg), f.At, len(recent), func() []time.Duration { var x []time.Duration; for _, h := range hist { x = append(x, h.at) }; return x }()))
 						}
 					}
@@ -260,10 +263,21 @@ func runC10(t *testing.T, sched simrt.Schedule, prog c10Prog) ([]Violation, RunS
 			}
 		}
 
+		// a {set sub} from a session that is not attached to the topic bypasses the loaded topic (recorded C08
+		// finding detached-set-bypasses-live-topic): nobody is told that P was dropped, the contacts' tables keep
+		// the user enabled. Frames that are a consequence of that are keyed separately.
 		tagN := 0
 		for ai, a := range prog.Acts {
 			c := actors[a.Client%len(actors)]
 			name := c01TopicName(sc, c, a.Topic%ntop)
+			if a.Kind == "mute" || a.Kind == "unmute" {
+				// the concrete name behind the placeholder
+				probe := opLeave(name, false)
+				probe.KeepID = true
+				if m := w.resolve(c, probe); m != nil && c.Connected && !c.Attached[m.Leave.Topic] {
+					detachedSet[w.globalName(c, m.Leave.Topic)+"/"+c.User.Uid.UserId()] = true
+				}
+			}
 			where := fmt.Sprintf("act %d (%s by client %d)", ai, a.Kind, c.Idx)
 			pre := takePre()
 			var ops []*Op
@@ -410,6 +424,20 @@ func runC10(t *testing.T, sched simrt.Schedule, prog c10Prog) ([]Violation, RunS
 				last := told[oc.Idx][w.Groups[g]]
 				if last == "gone" {
 					continue
+				}
+				if truth {
+					// sessions of channel readers produce no presence by design (sendSubNotifications returns early
+					// for them): a group kept loaded by channel readers only is neither clearly on nor off
+					full := 0
+					for sid := range ts.Sessions {
+						if !ts.ChanSess[sid] {
+							full++
+						}
+					}
+					if full == 0 {
+						simrt.Probe("c10.group_held_by_channel_readers_only")
+						continue
+					}
 				}
 				if (last == "on") != truth {
 					out = append(out, vio("C10", fmt.Sprintf("group-presence-diverged told=%s", last), "observer client %d was last told %q about %s, but the group has attached sessions = %v", oc.Idx, last, w.Groups[g], truth))
